@@ -277,7 +277,8 @@ static std::string showEvents(const std::vector<Event> &evs)
 // (1) a message flagged as forwarded / delivered through the carbon signals is only ever presented when the outer
 //     `from` equals the configured own bare JID;
 // (2) what is presented then is exactly one of the messages that sits in the stanza as
-//     {sent|received}@carbons / forwarded@forward / message@jabber:client;
+//     {sent|received}@carbons / forwarded@forward / message@jabber:client (for the V1 signals: under a wrapper of the
+//     direction the signal announces);
 // (3) anything presented without the flag is the outer stanza itself: its sender is the outer `from`, its id/to the outer
 //     ones, its body one of the outer's own <body/> children (never text taken from inside a wrapper).
 static bool sameAsInner(const Event &e, const MsgNode &m)
@@ -301,8 +302,12 @@ static void oracle(const Rig &rig, const Outer &o, const std::string &op)
                 if (c.ns != NS_CARBONS || (c.tag != "sent" && c.tag != "received")) continue;
                 for (auto &f : c.kids) {
                     if (f.ns != NS_FWD || f.tag != "forwarded") continue;
-                    for (auto &m : f.kids)
-                        if (m.ns == NS_CLIENT && m.tag == "message" && sameAsInner(e, m)) found = true;
+                    for (auto &m : f.kids) {
+                        if (m.ns != NS_CLIENT || m.tag != "message" || !sameAsInner(e, m)) continue;
+                        // V1 tells the direction by the signal: it must be the direction of a wrapper holding that message
+                        if ((e.chan == 'S' && c.tag != "sent") || (e.chan == 'V' && c.tag != "received")) continue;
+                        found = true;
+                    }
                 }
             }
             if (!found) { oracleFail(std::string("C11:") + gen + ":presented-not-inner", replay); bad = true; continue; }
